@@ -147,7 +147,7 @@ PROPS["C07"]["theorem_modules"] = PROPS["C07"]["theorem_modules"] + ["DecProofs.
 PROPS["C01"]["theorem_modules"] = PROPS["C01"]["theorem_modules"] + ["DecProofs.Properties.C01GenDiv", "DecProofs.Properties.C01GenDiv256"]
 PROPS["C02"]["theorem_modules"] = PROPS["C02"]["theorem_modules"] + ["DecProofs.Properties.C02GenFmaWrap", "DecProofs.Properties.C02GenFmaFront"]
 
-PROPS["C01"]["theorem_modules"] = PROPS["C01"]["theorem_modules"] + ["DecProofs.Properties.C01GenDiv256Corner", "DecProofs.Properties.C01GenSqrt", "DecProofs.Properties.C01GenAddLoop"]
+PROPS["C01"]["theorem_modules"] = PROPS["C01"]["theorem_modules"] + ["DecProofs.Properties.C01GenDiv256Corner", "DecProofs.Properties.C01GenSqrt", "DecProofs.Properties.C01GenSqrtLong", "DecProofs.Properties.C01GenAddLoop"]
 for _pid in ("C06", "C08", "C11"):
     PROPS[_pid]["theorem_modules"] = PROPS[_pid]["theorem_modules"] + ["DecProofs.Properties.SourceLevel2"]
 
